@@ -275,3 +275,55 @@ def guided_interrupt_at(fn, prefixes, pick):
     if not changes:
         return None
     return changes[min(len(changes) - 1, int(pick * len(changes)))] + 1
+
+
+def snapshot_process_state(mods):
+    """The contents of the process-wide containers of the given modules (see
+    _container_slots), to be taken while they are pristine.  Enum internals and dunder
+    attributes are left alone."""
+    import copy  # pylint: disable=import-outside-toplevel
+    import enum  # pylint: disable=import-outside-toplevel
+
+    snap = []
+    for owner, name in _container_slots(mods):
+        if name.startswith("__") or (isinstance(owner, type) and issubclass(owner, enum.Enum)):
+            continue
+        val = vars(owner).get(name)
+        raw = getattr(val, "__func__", val)
+        if callable(getattr(raw, "cache_info", None)):
+            snap.append((owner, name, None))
+        else:
+            try:
+                snap.append((owner, name, copy.deepcopy(val)))
+            except Exception:  # pylint: disable=broad-except
+                pass
+    return snap
+
+
+def restore_process_state(snap):
+    """Put the process-wide containers back to the snapshot (functools caches are emptied):
+    the next history starts where a fresh process would, so that what a call does on first
+    use - and where an interruption guided by state changes lands - is a function of the
+    case alone."""
+    import copy  # pylint: disable=import-outside-toplevel
+
+    for owner, name, saved in snap:
+        cur = vars(owner).get(name)
+        raw = getattr(cur, "__func__", cur)
+        try:
+            if saved is None:
+                if callable(getattr(raw, "cache_clear", None)):
+                    raw.cache_clear()
+            elif isinstance(cur, dict) and isinstance(saved, dict):
+                cur.clear()
+                cur.update(copy.deepcopy(saved))
+            elif isinstance(cur, list) and isinstance(saved, list):
+                cur[:] = copy.deepcopy(saved)
+            elif isinstance(cur, set) and isinstance(saved, set):
+                cur.clear()
+                cur.update(copy.deepcopy(saved))
+            elif hasattr(cur, "clear") and hasattr(cur, "extend"):
+                cur.clear()
+                cur.extend(copy.deepcopy(saved))
+        except Exception:  # pylint: disable=broad-except
+            pass
